@@ -195,13 +195,17 @@ CHECKS = {
     "C16": dict(
         category="model_checking",
         technique="TLA+ spec Mem (footprints vs allocation sizes over the parameter matrix; ownership/lifecycle heap machine) + LweScheme!SubToFootprint + Threads!ReleasedOnExit model-checked by TLC; "
-                  "API lifecycles over the matrix executed under an allocation ledger (red zones, two fill patterns, poison-on-free) and validated by TLC (Trace_Mem)",
+                  "API lifecycles over the matrix executed under an allocation ledger (red zones, two fill patterns, poison-on-free) and validated by TLC (Trace_Mem); "
+                  "TLA+ spec Life (lifecycle machine of the public API) checked exhaustively by TLC, its TLC-sampled behaviours replayed on the library under the ledger and validated step by step (Trace_Life)",
         text="Specification: for every n of the matrix {1,...,1100} the bootstrapping scratch footprint lies inside its allocation (the pinned 'new int32_t[N]' design is rejected: defect D3), the 3-level key-switch index is in bounds and injective, Karatsuba's scratch fits its 16N bytes, "
              "the 8-lane subtraction touches exactly words 0..n-1 (pinned do-while design rejected: D2); the ownership machine of a key set (params, keys, bk, its key-switching key, the FFT key and its own copy) admits no use after free under any order of keygen/evaluate/delete calls "
              "(a design where the FFT key aliases bk's key-switching key is rejected), and a thread's processor allocations are all released at exit (the pinned spqlios destructor is rejected: D4). "
              "Code: an allocation ledger interposed in the harness (malloc/new/memalign..., 64-byte red zones, fresh memory filled with 0xA5 or 0x5A, freed memory poisoned and quarantined) runs, for each configuration of the matrix x k in {1,2} x four valid layouts, the whole lifecycle "
              "new/keygen/encrypt/all gate kinds/decrypt/export/import/evaluate with the imported key/delete in three orders (incl. deleting the coefficient key and continuing with the FFT key), the object allocation API, and thread create/exit; "
-             "TLC requires zero live bytes/blocks afterwards, zero damaged red-zone bytes, no double free, no crash, plaintext-correct results, and identical result/export hashes under both fill patterns.",
+             "TLC requires zero damaged red-zone bytes, no double free, no crash, plaintext-correct results, identical result/export hashes under both fill patterns, and nothing alive once the thread that ran a whole lifecycle (after a first run in the same process) has exited; "
+             "configuration sequences on one thread and gates on noiseless constants are part of the scenarios. 'Every order the API allows' is the TLA+ machine Life (6 objects, 3 blobs, the collector; guards = what must be alive): TLC checks NoDangling/DeadIsEmpty/NoStuck for all behaviours up to 9 (thorough: 11) calls and for both "
+             "parameter kinds, samples ~20 (thorough: ~250) long behaviours, and every one is replayed by h_life; Trace_Life accepts a replay only if each step is an enabled Life action, each decryption returns Life's plaintext, gate outputs are one function of (key, gate, inputs) across generated and re-imported key objects and across runs, "
+             "key exports are byte-identical, and the windows are clean.",
         note="PARTIAL: decides heap out-of-bounds writes within 64 bytes of a block, leaks, double frees, and uses of uninitialised/freed heap memory that change a result or an export. NOT decided: out-of-bounds reads without effect, stack accesses, accesses far outside a block, "
              "anything inside hand-written assembly that stays in mapped memory. The ASan/UBSan/Valgrind configurations named by the property are a different technique and are not run. Found and repaired through this family of checks: D2, D3, D4.",
         design="§6 C16, §7"),
